@@ -318,10 +318,39 @@ def correspond_attr(R, cases, results):
                 R.mismatch("set", case, post, {"td": mtd, "nt": mnt})
 
 
+def correspond_setitem(R, cases, abstracts):
+    lines, meta = [], []
+    for i, ab in abstracts:
+        si = ab.get("setitem")
+        if not si:
+            continue
+        v = si["value"]
+        if isinstance(v, list) and v[0] == "tc":
+            vs = [S("tc"), bool(v[1]), state_sx(v[2])]
+        elif isinstance(v, list) and v[0] == "td":
+            vs = [S("td"), strs(v[1])]
+        else:
+            vs = S(v)
+        lines.append(sx([S("setitem"), False, state_sx(si["pre"]), vs]))
+        meta.append((i, si))
+    res = R.model(lines) if lines else []
+    for (i, si), m in zip(meta, res):
+        R.traces += 1
+        R.count("setitem-model")
+        if m[0] != "ok":
+            R.mismatch("setitem", cases[i], "ok", m)
+            continue
+        mtd = sorted(k for k, v in m[1][0])
+        mnt = {k: ("none" if v == "none" else "val") for k, v in m[1][1]}
+        if mtd != sorted(si["post"]["td"]) or mnt != si["post"]["nt"]:
+            R.mismatch("setitem", cases[i], si["post"], {"td": mtd, "nt": mnt})
+
+
 def correspond(R, cases, abstracts, results=None, info=None):
     if info is not None:
         correspond_dispatch(R, info)
     correspond_wrap(R, cases, abstracts)
+    correspond_setitem(R, cases, abstracts)
     if results is not None:
         correspond_fromtd(R, cases, results)
         correspond_attr(R, cases, results)
